@@ -24,3 +24,8 @@ def cpp_generate(mods, scn, cse, outdir, kind="ekf", presentation=None, via_entr
 def mf_decimal_batch(mods, scns, unit):
     import mfcheck
     return mfcheck.decimal_python(mods, scns, unit)
+
+
+def mf_long_batch(mods, moves, unit):
+    import mfcheck
+    return mfcheck.long_moves_python(mods, moves, unit)
